@@ -2,6 +2,7 @@ import Driver.Registry
 import Driver.Exec
 import Driver.ItemSpace
 import Driver.Relative
+import Driver.RelHist
 import Driver.Export
 import Driver.Codec
 import Driver.IOSpec
@@ -18,6 +19,7 @@ def main (args : List String) : IO UInt32 := do
   | ["exec"] => Driver.Exec.main; return 0
   | ["items"] => Driver.ItemSpace.main; return 0
   | ["relative"] => Driver.Relative.main; return 0
+  | ["relhist"] => Driver.RelHist.main; return 0
   | ["export"] => Driver.Export.main; return 0
   | ["codec"] => Driver.Codec.main; return 0
   | ["iospec"] => Driver.IOSpec.main; return 0
